@@ -45,24 +45,24 @@ theorem scanRun_of_workers {V : Type} (deps : List (List Task)) (kg : Worker →
     scanRun deps.length (fun t => deps.getD t []) kg Scan.init evs = true :=
   scanRun_of_local deps kg evs Scan.init (fun _ => (Scan.init, true)) (fun w t => ⟨rfl, rfl⟩) h
 
-/-- every worker either takes no part in the history or its events are those of one run of the loop program (any flags with the worker's
-    --keep-going setting, any number >= 1 of wait cycles, any answers; hook marks have no counterpart in a history) up to the end of its process -/
+/-- every worker either takes no part in the history or its events END with those of one run of the loop program over the whole task list (any flags with
+    the worker's --keep-going setting, any number >= 1 of wait cycles, any answers; hook marks have no counterpart in a history) up to the end of its process.
+    What it did `before` that last pass is arbitrary - in particular earlier passes over the shorter task lists of a jugfile whose barriers were still closed -/
 def LoopWorkers {V : Type} (fl : Worker → Flags) (deps : List (List Task)) (evs : List (Ev V)) : Prop :=
-  ∀ w, proj w evs = [] ∨ ∃ (lf : LFlags) (nr : Nat) (answers : List Nat), 1 ≤ nr ∧ lf.keepGoing = (fl w).keepGoing ∧
-    proj w evs = strip (loopTrace lf deps nr answers)
+  ∀ w, proj w evs = [] ∨ ∃ (lf : LFlags) (nr : Nat) (answers : List Nat) (before : Tr), 1 ≤ nr ∧ lf.keepGoing = (fl w).keepGoing ∧ NoRet before ∧
+    proj w evs = before ++ strip (loopTrace lf deps nr answers)
 
 /-- workers that run the loop program keep the scan obligation of the global history: `loop_scans_all` per worker, `scanRun_of_workers` together -/
 theorem scanRun_of_loopWorkers {V : Type} (fl : Worker → Flags) (deps : List (List Task)) (evs : List (Ev V)) (h : LoopWorkers fl deps evs) :
     scanRun deps.length (fun t => deps.getD t []) (kgOf fl) Scan.init evs = true := by
   apply scanRun_of_workers deps (kgOf fl) evs
   intro w
-  rcases h w with h | ⟨lf, nr, answers, hnr, hkg, h⟩
+  rcases h w with h | ⟨lf, nr, answers, before, hnr, hkg, hnb, h⟩
   · rw [h]; rfl
-  · rw [h, G_strip]
-    have := Jug.Loop.loop_scans_all lf deps nr hnr answers
-    simp only [lscanOK] at this
+  · rw [h, G_append, G_strip]
     simp only [kgOf, ← hkg]
-    exact this
+    apply Jug.Loop.loop_scans_all_from lf deps nr hnr answers
+    rw [ok_noRet _ _ before hnb]
 
 /-- **completeness for workers that run the loop program** (C01, the whole chain): a failure-, stop- and crash-free history of any number
     `W >= 1` of such workers under any interleaving, all of which have left with status 0, ends with a result for every task. No scan
